@@ -90,7 +90,7 @@ class C12(Check):
             out += [("pre3", i, j, l, k) for i in range(5) for j in range(5) for l in range(5)]
         return out
 
-    def check_scaffold(self, spec, ctx, two=False, orders=("asc", "desc", "asc-after-refused-add", "asc-after-other-assembly")):
+    def check_scaffold(self, spec, ctx, two=False, orders=("asc", "desc", "asc-after-refused-add", "asc-after-other-assembly", "asc-added-after-first-lookup")):
         """
         every query on ONE IndexedAssembly object per order (ascending and descending), so a lookup
         that depends on earlier lookups on the same object shows up as well
@@ -100,7 +100,15 @@ class C12(Check):
             scaffolds = [scffld]
             if two:
                 scaffolds = [build([ALPHA[0], ALPHA[4], ALPHA[1]], name="other"), scffld]
-            ia = IndexedAssembly("t", scaffolds=scaffolds)
+            if order == "asc-added-after-first-lookup":
+                # history: the assembly answers a lookup first, the scaffold under test is added afterwards
+                ia = IndexedAssembly("t", scaffolds=[build([ALPHA[0], ALPHA[4], ALPHA[1]], name="other")])
+                ia.find_overlaps(Fragment("other", 1, 2, 1))
+                for s in scaffolds:
+                    if s.name != "other":
+                        ia.add_scaffold(s)
+            else:
+                ia = IndexedAssembly("t", scaffolds=scaffolds)
             if order == "asc-after-refused-add":
                 # history: a different scaffold with the same name is offered and refused; the one held must stay usable
                 try:
@@ -120,7 +128,7 @@ class C12(Check):
             queries = [(a, b) for a in range(1, ln + 3) for b in range(a, ln + 3)]
             if order == "desc":
                 queries.reverse()
-            if order in ("asc-after-refused-add", "asc-after-other-assembly") and len(queries) > 40:
+            if order in ("asc-after-refused-add", "asc-after-other-assembly", "asc-added-after-first-lookup") and len(queries) > 40:
                 queries = queries[:: len(queries) // 40]
             for a, b in queries:
                 self.check_query(spec, scffld, ia, a, b, ctx, two, has_gap, order)
@@ -250,4 +258,4 @@ class C12(Check):
 
 CHECK = C12()
 # scope added in later rounds, kept in the evidence text
-CHECK.rule += ' Huge family: rows with coordinates around 2^32. A third query order after add_scaffold() was offered (and refused) a different scaffold with the same name; a fourth after other IndexedAssembly objects with same-named scaffolds of other lengths were built. Five scaffolds of 19-31 rows, every query.'
+CHECK.rule += ' Huge family: rows with coordinates around 2^32. A third query order after add_scaffold() was offered (and refused) a different scaffold with the same name; a fifth on a scaffold added after the assembly answered its first lookup; a fourth after other IndexedAssembly objects with same-named scaffolds of other lengths were built. Five scaffolds of 19-31 rows, every query.'
